@@ -53,6 +53,8 @@ func (s step) String() string {
 		return "fault(" + s.Method + ")"
 	case "hold":
 		return fmt.Sprintf("hold(%s after %d calls)", s.Method, s.N)
+	case "release1":
+		return fmt.Sprintf("release(%s)", s.Method)
 	}
 	return s.Op
 }
@@ -133,6 +135,9 @@ func (w *world) apply(s step, hist []step, check bool) {
 		w.c.HoldMethod(s.Method, int(s.N))
 	case "releaseall":
 		w.c.ReleaseAll()
+		w.d.Quiesce()
+	case "release1":
+		w.c.ReleaseMethod(s.Method)
 		w.d.Quiesce()
 	case "restart":
 		w.d.Restart()
@@ -386,6 +391,29 @@ func bases() []scenario {
 				st2 := append(append(append([]step{}, pre...), step{Op: "head+", N: 3}, step{Op: "hold", Method: m, N: skip}, step{Op: "poll"}), mut...)
 				st2 = append(st2, step{Op: "releaseall"})
 				out = append(out, scenario{Name: fmt.Sprintf("slow-%s-after%d/poll/mutation%d", m, skip, mi), WaitConf: true, Level: 5, Steps: st2})
+			}
+		}
+	}
+	// overlapping lookups: node calls of TWO watcher goroutines are in flight at once (the log goroutine's
+	// block lookup for a new message B, and the per-head scan's or the re-observation's receipt lookup for
+	// the pending message A) and the node answers them in either order
+	const rcpt, byHash = "eth_getTransactionReceipt", "eth_getBlockByHash"
+	for _, second := range []string{"scan", "reobs"} {
+		for _, order := range [][2]string{{byHash, rcpt}, {rcpt, byHash}} {
+			for _, bFirst := range []bool{true, false} {
+				st := []step{{Op: "mine", Tx: 1, Block: 101, Logs: []ethh.LogSpec{core(5, 2)}}, {Op: "poll"}, {Op: "head+", N: 3}}
+				logB := []step{{Op: "hold", Method: byHash}, {Op: "mine", Tx: 2, Block: 104, Logs: []ethh.LogSpec{core(6, 1)}}}
+				lookA := []step{{Op: "hold", Method: rcpt}, {Op: "poll"}}
+				if second == "reobs" {
+					lookA = []step{{Op: "hold", Method: rcpt}, {Op: "reobs", Tx: 1}}
+				}
+				if bFirst {
+					st = append(append(st, logB...), lookA...)
+				} else {
+					st = append(append(st, lookA...), logB...)
+				}
+				st = append(st, step{Op: "release1", Method: order[0]}, step{Op: "release1", Method: order[1]}, step{Op: "head+", N: 3}, step{Op: "poll"})
+				out = append(out, scenario{Name: fmt.Sprintf("overlap/log-lookup+%s-lookup/first-answer=%s/log-first=%v", second, order[0], bFirst), WaitConf: true, Level: 2, Steps: st})
 			}
 		}
 	}
